@@ -1,3 +1,107 @@
-pub fn run(_f: &[&str]) -> String {
-    "BADCASE".into()
+// ops_misc — small direct relations between public entry points that should be the same thing (implementation vs implementation):
+//   ie <k|-> <kind> <hex>   serde_json::Error -> std::io::Error conversion and source(): for the error of from_reader::<Value> and ::<(u8,)> over a reader
+//                           failing with <kind> once k bytes were delivered ("-" = never): category, the io::ErrorKind of io::Error::from(e)
+//                           (Eof -> UnexpectedEof, Syntax / Data -> InvalidData, Io -> the reader's own kind), whether source() is Some
+//   eq <hex>                entry points that must agree on one text: from_str::<Value>, str::parse::<Value>, Map<String,Value> as target (objects only),
+//                           T::deserialize(v.into_deserializer()), Value::from(int) vs to_value(int), FromIterator for Value
+use crate::canon::*;
+use crate::rw::ChunkReader;
+use serde::de::IntoDeserializer;
+use serde::Deserialize;
+use serde_json::{Map, Value};
+use std::io;
+
+fn io_kind_name(k: io::ErrorKind) -> String {
+    match k {
+        io::ErrorKind::UnexpectedEof => "UnexpectedEof".into(),
+        io::ErrorKind::InvalidData => "InvalidData".into(),
+        other => format!("kind{}", kind_id(other)),
+    }
+}
+
+fn conv(e: serde_json::Error) -> String {
+    let cat = cat_name(&e).to_string();
+    let src = std::error::Error::source(&e).is_some();
+    let ioe: io::Error = e.into();
+    format!("{}>{}:{}", cat, io_kind_name(ioe.kind()), if src { "src" } else { "nosrc" })
+}
+
+pub fn run(f: &[&str]) -> String {
+    match f[0] {
+        "ie" if f.len() == 4 => {
+            let data = match unhex(f[3]) { Some(d) => d, None => return "BADCASE".into() };
+            let kind = kind_of(f[2].parse().unwrap_or(1));
+            let mk = |d: &'static [u8]| d;
+            let _ = mk;
+            let mut out = vec![];
+            for typed in [false, true] {
+                let mut rd = ChunkReader::new(&data, 2);
+                if f[1] != "-" {
+                    rd.fail_at = Some(f[1].parse().unwrap_or(0));
+                    rd.fail_kind = kind;
+                }
+                let r: Result<(), serde_json::Error> = if typed {
+                    serde_json::from_reader::<_, (u8,)>(rd).map(|_| ())
+                } else {
+                    serde_json::from_reader::<_, Value>(rd).map(|_| ())
+                };
+                out.push(match r { Ok(()) => "ok".to_string(), Err(e) => conv(e) });
+            }
+            out.join(" ")
+        }
+        "eq" if f.len() == 2 => {
+            let data = match unhex(f[1]) { Some(d) => d, None => return "BADCASE".into() };
+            let s = match std::str::from_utf8(&data) { Ok(s) => s, Err(_) => return "SKIP".into() };
+            let base = serde_json::from_str::<Value>(s);
+            let show = |r: &Result<Value, serde_json::Error>| match r { Ok(v) => format!("ok {}", show_value(v)), Err(e) => show_err(e) };
+            let b = show(&base);
+            let mut diffs = vec![];
+            if show(&s.parse::<Value>()) != b { diffs.push("FromStr"); }
+            // Map<String, Value> as a target: accepts exactly the objects, with the same contents
+            let m = serde_json::from_str::<Map<String, Value>>(s);
+            match (&base, &m) {
+                (Ok(Value::Object(o)), Ok(m2)) if o == m2 => {}
+                (Ok(Value::Object(_)), _) => diffs.push("Map-target-object"),
+                (Ok(_), Ok(_)) => diffs.push("Map-target-accepts-non-object"),
+                (Err(e1), Err(e2)) if e1.classify() == e2.classify() || e2.is_data() => {}
+                (Err(_), Ok(_)) => diffs.push("Map-target-accepts-rejected-text"),
+                _ => {}
+            }
+            if let Ok(v) = &base {
+                // IntoDeserializer for Value / Map: the same as from_value
+                let a = Value::deserialize(v.clone().into_deserializer()).map_err(|e: serde_json::Error| e);
+                if show(&a) != b { diffs.push("IntoDeserializer-Value"); }
+                if let Value::Object(o) = v {
+                    let a = Value::deserialize(o.clone().into_deserializer());
+                    if show(&a) != b { diffs.push("IntoDeserializer-Map"); }
+                    let c: Value = o.clone().into_iter().collect();
+                    if &c != v { diffs.push("FromIterator-pairs"); }
+                }
+                if let Value::Array(a) = v {
+                    let c: Value = a.clone().into_iter().collect();
+                    if &c != v { diffs.push("FromIterator-seq"); }
+                }
+                if let Some(i) = v.as_i64() {
+                    if Value::from(i) != serde_json::to_value(i).unwrap() || (v.is_u64() && Value::from(i as u64) != *v) { diffs.push("From-int"); }
+                }
+                if let Some(u) = v.as_u64() {
+                    if Value::from(u) != serde_json::to_value(u).unwrap() || Value::from(u) != *v { diffs.push("From-u64"); }
+                }
+                // the twelve is_* / as_* accessors of Value agree with each other and with the variant
+                let kinds = [v.is_null(), v.is_boolean(), v.is_number(), v.is_string(), v.is_array(), v.is_object()];
+                if kinds.iter().filter(|x| **x).count() != 1 { diffs.push("is_x-not-exclusive"); }
+                if v.is_null() != v.as_null().is_some() || v.is_boolean() != v.as_bool().is_some() || v.is_number() != v.as_number().is_some()
+                    || v.is_string() != v.as_str().is_some() || v.is_array() != v.as_array().is_some() || v.is_object() != v.as_object().is_some() {
+                    diffs.push("is_x-vs-as_x");
+                }
+                let mut w = v.clone();
+                if w.as_array_mut().is_some() != v.is_array() || w.as_object_mut().is_some() != v.is_object() { diffs.push("as_x_mut"); }
+                if let Value::Number(n) = v {
+                    if v.is_i64() != n.is_i64() || v.is_u64() != n.is_u64() || v.is_f64() != n.is_f64() || v.as_i64() != n.as_i64() || v.as_u64() != n.as_u64() { diffs.push("Value-vs-Number-accessors"); }
+                }
+            }
+            if diffs.is_empty() { format!("same {}", b.split(' ').next().unwrap_or("")) } else { format!("DIFF-{}", diffs.join(",")) }
+        }
+        _ => "BADCASE".into(),
+    }
 }
